@@ -219,6 +219,35 @@ def vectorised_call_binds_row_i_of_every_batched_argument_by_name(S):
         S.ensure(f"row-{i}-default-bound", b.get("k") is f.defaults["k"] and sorted(b) == ["c", "k", "x"])
 
 
+@scenario("C13", [UF + ".__call__", DUF + ".__call__"], configs=["user-function", "domain-user-function"], bounded=BOUND)
+def calling_a_wrapper_changes_neither_the_wrapper_nor_the_callers_dictionary(S):
+    """frame of __call__ over a history of three calls (with and without the optional name, with extra keys): the
+    wrapper's args / defaults and the dictionary handed in are unchanged, the third call still binds the declared
+    default -- no value of an earlier call is remembered"""
+    from tpv.spec import RowFn
+
+    duf = S.cfg == "domain-user-function"
+    dflt = S.tensor("default_of_k", [1, 1])
+    if duf:
+        f = RowFn("g", ["x", "k"], 1, {"x": 1, "k": 1}, defaults={"k": dflt})
+        w = S.new(DUF, f)
+    else:
+        f = UserFn("f", ["x", "k"], {"k": dflt})
+        w = S.new(UF, f)
+    N = S.int("N", 1)
+    xv, kv = S.tensor("xv", [N, 1]), S.tensor("kv", [N, 1])
+    before = frame.snap(w)
+    for given in ({"x": xv, "k": kv, "extra": S.tensor("e", [N, 1])}, {"x": xv}, {"k": kv, "x": xv}):
+        g0 = frame.snap(given)
+        S.method(w, "__call__", given)
+        S.ensure(f"call-{len(f.calls)}-leaves-the-callers-dictionary-unchanged", frame.diff(g0, frame.snap(given)) is None)
+        S.ensure(f"call-{len(f.calls)}-leaves-the-wrapper-unchanged", frame.diff(before, frame.snap(w)) is None)
+    S.ensure("three-calls", len(f.calls) == 3)
+    if len(f.calls) == 3:
+        S.ensure("second-call-binds-the-declared-default-not-the-value-of-the-first-call", f.calls[1]["kwargs"].get("k", f.calls[1].get("bound", {}).get("k")) is dflt)
+        S.ensure("third-call-binds-the-supplied-value", f.calls[2]["kwargs"].get("k") is kv)
+
+
 @scenario("C13", [UF + ".set_default", UF + ".remove_default", UF + ".necessary_args", UF + ".optional_args", UF + ".__call__"], configs=["3:1"], bounded=BOUND)
 def defaults_can_be_set_and_removed_by_name(S):
     """set_default(name=v) makes `name` optional with value v (only for declared names, other keys are ignored);
